@@ -27,6 +27,7 @@ def source_docs(tier, rng):
                 seen.add(t)
                 out.append((lbl, t))
     g = gen_hist.Gen(rng)
+    out.append(('attribute values with quotes', TJ.to_text(B.story_append([B.story('Q', [B.item('Q1', extra=[E('x', text='t', attrs={'note': 'the "late" edition', 'a': "it's", 'nl': 'a\nb', 'amp': 'a&b<c>'})])])], message_id='77'))))
     for k in range(20 if tier == 'quick' else 200):
         out.append((f'rich running order #{k}', TJ.to_text(g.ro(rng.randrange(0, 4)))))
     state = TJ.canon(g.ro(3))
@@ -57,7 +58,8 @@ def from_all_sources(data_text, data_bytes=None):
                 with warnings.catch_warnings():
                     warnings.simplefilter('ignore')
                     mo = mk()
-                res[name] = {'cls': type(mo).__name__, 'str': str(mo)}
+                res[name] = {'cls': type(mo).__name__, 'str': str(mo),
+                             'faithful': TJ.to_tree(mo.xml) == TJ.parse(raw)}
             except Exception as e:  # noqa: BLE001
                 res[name] = {'err': impl.err_name(e)}
     finally:
@@ -109,7 +111,11 @@ def listing_cases(tier):
         for combo in itertools.product(range(1, len(keysets)), repeat=npages):
             pages = [[f'p{pi}-{k}'.replace('p%d-a/' % pi, 'a/%d-' % pi) if False else k.replace('a/', f'a/{pi}_') for k in keysets[c]]
                      for pi, c in enumerate(combo)]
-            for prefix in ('a/', ''):
+            prefixes = ['a/', '']
+            if pages and pages[0]:
+                k0 = pages[0][0]
+                prefixes += [k0, k0[:-4], k0[:-2]]          # a complete key; prefixes ending inside the suffix
+            for prefix in prefixes:
                 for suffix in ('.mos.xml', '.txt', ''):
                     out.append((pages, prefix, suffix))
     return out
@@ -127,7 +133,7 @@ def run_c18(tier, seed):
         res = from_all_sources(text)
         oc.count('sources')
         vals = list(res.values())
-        if any(v != vals[0] for v in vals):
+        if any(v != vals[0] for v in vals) or any(v.get('faithful') is False for v in vals):
             oc.failing.append({'kind': 'sources', 'text': text, 'label': lbl,
                                'spec': 'file, str, bytes and S3 object with the same content give the same class and serialisation',
                                'impl': {k: (v if 'err' in v else v['cls']) for k, v in res.items()}})
@@ -209,7 +215,7 @@ def replay_c18(pid, fl):
     if fl['kind'] == 'sources':
         res = from_all_sources(fl['text'])
         vals = list(res.values())
-        bad = any(v != vals[0] for v in vals)
+        bad = any(v != vals[0] for v in vals) or any(v.get('faithful') is False for v in vals)
         rd = reader_obs(fl['text'])
         if 'err' not in vals[0] and '<messageID>' in fl['text'] and '<roID>' in fl['text']:
             bad = bad or any('err' in o or not o['faithful_and_fresh'] or o['mos_type'] != vals[0]['cls'] for o in rd.values())
